@@ -42,6 +42,7 @@ stats! {
     forgets,
     walks,
     walks_cut_inside_after_swap,
+    adaptor_probes,
     iter_writes,
     entry_ops,
     entry_occupied,
